@@ -16,8 +16,11 @@ if os.environ.get('KERNPY_REPO'):
 
 
 def write_evidence(prop, evidence):
-    os.makedirs(os.path.join(VERIF, 'evidence'), exist_ok=True)
-    path = os.path.join(VERIF, 'evidence', f'{prop}.json')
+    # evidence/ describes runs against /repo itself; a run redirected to a scratch copy (KERNPY_REPO: mutants, seeded changes of the
+    # self-test) writes under out/ instead
+    sub = 'evidence' if not os.environ.get('KERNPY_REPO') else os.path.join('out', 'evidence_scratch')
+    os.makedirs(os.path.join(VERIF, sub), exist_ok=True)
+    path = os.path.join(VERIF, sub, f'{prop}.json')
     with open(path, 'w') as f:
         json.dump(evidence, f, indent=1, default=str)
     return path
